@@ -14,7 +14,7 @@ RULE = ('seeded scenarios x seeded histories over yy_create_buffer / yy_scan_str
         'distinct = event-log hash, non-trivial = tokens attributed to >= 2 buffers')
 TIERS = {
     'quick': {'scenarios': 48, 'plans': 100, 'wall_cap': 600},
-    'thorough': {'scenarios': 1200, 'plans': 250, 'wall_cap': 3300},
+    'thorough': {'scenarios': 5000, 'plans': 250, 'wall_cap': 3300},
 }
 COMPONENTS = sb.COMPONENTS
 ASSUMPTIONS = ['only histories the manual permits are generated (DESIGN section 4): no use of a deleted buffer, a buffer is on the stack at most once, '
